@@ -45,3 +45,13 @@ Print Assumptions C12_finite_has_max.
 Theorem C12_negated_simple_translation_refuted : forall sym_lt : sym -> sym -> Prop, sym_order sym_lt -> let S_H := fun _ : list sym => False in let S_T := fun tv : list sym => tv = SNum 0 :: nil in ~ (exists v : sym, agg_value sym_lt FMin S_T v /\ cmp_holds sym_lt CLt (SNum 1) v) /\ ~ (exists e : sym, (exists tv : list sym, S_H tv /\ hd_error tv = Some e) /\ ~ cmp_holds sym_lt CLt (SNum 1) e).
 Proof. exact (@negated_simple_translation_refuted_proof). Qed.
 Print Assumptions C12_negated_simple_translation_refuted.
+
+From NGO Require Import Syntax.Ast Sem.Sym Sem.Sat Meta.Chain Link.ChainSem.
+
+Theorem C12_supported_general : forall (sym_lt : sym -> sym -> Prop) (P : list stmt) (I : list gatom) (T : interp) (a : gatom), (forall (line : nat) (h : head) (b : list bodyelem), In (SRule line h b) P -> gen_head h) -> stable sym_lt P I T -> T a -> In a I \/ (exists (line : nat) (h : head) (b : list bodyelem) (s : subst), In (SRule line h b) P /\ head_derives (gvars_rule h b) s h a /\ body_sat sym_lt (gvars_rule h b) T T s b).
+Proof. exact (@supported_general). Qed.
+Print Assumptions C12_supported_general.
+
+Theorem C12_next_pred_meaning : forall (sym_lt : sym -> sym -> Prop) (dom mn nx : string) (P : list stmt) (I : list (string * list sym)) (T : interp), sym_order sym_lt -> (forall (line : nat) (h : head) (b : list bodyelem), In (SRule line h b) P -> gen_head h) -> In (min_rule dom mn) P -> In (next_rule_base dom mn nx) P -> In (next_rule_step dom nx) P -> (forall (line : nat) (h : head) (b : list bodyelem), In (SRule line h b) P -> In (mn, 1) (head_names h) -> SRule line h b = min_rule dom mn) -> (forall (line : nat) (h : head) (b : list bodyelem), In (SRule line h b) P -> In (nx, 2) (head_names h) -> SRule line h b = next_rule_base dom mn nx \/ SRule line h b = next_rule_step dom nx) -> (forall v : sym, ~ In (mn, v :: nil) I) -> (forall p n : sym, ~ In (nx, p :: n :: nil) I) -> stable sym_lt P I T -> (exists l : list sym, forall v : sym, T (dom, v :: nil) <-> In v l) -> exists D : list sym, Sorted.StronglySorted sym_lt D /\ (forall v : sym, T (dom, v :: nil) <-> In v D) /\ (forall v : sym, T (mn, v :: nil) <-> hd_error D = Some v) /\ (forall p n : sym, T (nx, p :: n :: nil) <-> consecutive sym D p n).
+Proof. exact (@next_pred_meaning). Qed.
+Print Assumptions C12_next_pred_meaning.
